@@ -2,7 +2,6 @@ use std::default::Default;
 use std::fs;
 use std::sync::OnceLock;
 
-use convert_case::{Case, Casing};
 use proc_macro2::TokenStream;
 use quote::quote;
 use regex::Captures;
@@ -197,14 +196,15 @@ pub fn make_url(operation: &Operation) -> TokenStream {
         }
     } else {
         static FIX_PLACEHOLDERS: OnceLock<regex::Regex> = OnceLock::new();
-        let fix = FIX_PLACEHOLDERS.get_or_init(|| regex::Regex::new("\\{([_\\w]+)\\}").unwrap());
+        let fix = FIX_PLACEHOLDERS.get_or_init(|| regex::Regex::new("\\{([^{}]+)\\}").unwrap());
         let inputs = inputs.into_iter().map(|input| {
             let name = input.name.to_rust_ident();
             quote! { #name = self.params.#name }
         });
         let path = fix
             .replace_all(&operation.path, |cap: &Captures| {
-                format!("{{{}}}", cap.get(1).unwrap().as_str().to_case(Case::Snake))
+                // the named argument is the parameter's identifier, so the placeholder must be spelled the same way
+                format!("{{{}}}", cap.get(1).unwrap().as_str().to_rust_ident())
             })
             .to_string();
         quote! {
